@@ -125,6 +125,19 @@ def run(facts, rep, trait=TRAIT):
             if ('ok', inst, how) not in seen:
                 seen.add(('ok', inst, how))
                 rep.ok('E3.normalised-return', '%s -> %s' % (k, shape), how)
+            if item == 'gcdx' and how.startswith('N1') and s is not None:
+                # (normalized(d), s, t): d was multiplied by a unit that s and t cannot have been multiplied by
+                zs = [c for c in (s, t) if _is_call(c, 'Zero::zero', 'zero') and not c[2]]
+                ikey = '%s|bezout coefficients with a gcd normalised by normalized()/into_normalized()' % k
+                if len(zs) == 2:
+                    if ikey not in seen:
+                        seen.add(ikey)
+                        rep.ok('E3.bezout-rescaled', ikey, 'both coefficients are zero')
+                elif ikey not in seen:
+                    seen.add(ikey)
+                    rep.violation('E3.bezout-rescaled', ikey,
+                                  '%s returns (%s, %s, %s): the gcd is replaced by its normalised associate d*u but the Bezout coefficients are returned as computed, so s*x + t*y = d, not the returned d*u (the 2x2 blocks built from it have determinant u^-1 instead of 1)' %
+                                  (k, _shape_key(g)[:60], _shape_key(s)[:40], _shape_key(t)[:40]), where=_ret_where(b, p))
             if item == 'gcdx' and how.startswith('N3') and s is not None:
                 gg = strip(g) if g[0] in ('ref', 'deref') else g
                 a, bb_ = gg[2]
